@@ -436,6 +436,8 @@ class Engine:
             # an object whose value is only an abstract state (used where functions are composed and
             # nothing but their order and arguments matters)
             return SObj('Opaque', {'state': V(fresh(name + '_state', Val))})
+        if ty == 'Codec':
+            return SObj('PENMANCodec', {'model': SModel(fresh(name + '_model', vl.ModelS))})
         if ty == 'Iter':
             return SObj('Iter', {'seq': V(VList(fresh(name + '_seq', SeqVal)))})
         if ty == 'TokenIterator':
@@ -1569,17 +1571,22 @@ class Exec:
         val = self.ev(st.value)
         for tgt in st.targets:
             self.assign(tgt, val, st)
+            from . import mutate
             if isinstance(tgt, (ast.Name, ast.Tuple, ast.List)):
-                from . import mutate
                 mutate.record_roots(self, tgt, st.value)
+            elif isinstance(tgt, ast.Attribute):
+                mutate.note_share(self, tgt, st.value, val, st)
 
     def st_AnnAssign(self, st):
         if st.value is None:
             return
-        self.assign(st.target, self.ev(st.value), st)
+        val = self.ev(st.value)
+        self.assign(st.target, val, st)
+        from . import mutate
         if isinstance(st.target, (ast.Name, ast.Tuple, ast.List)):
-            from . import mutate
             mutate.record_roots(self, st.target, st.value)
+        elif isinstance(st.target, ast.Attribute):
+            mutate.note_share(self, st.target, st.value, val, st)
 
     def assign(self, tgt, val, st):
         if isinstance(tgt, (ast.Name, ast.Tuple, ast.List)):
